@@ -29,12 +29,26 @@ from .value import (
     CanAssignContext,
     CanAssignError,
     KnownValue,
+    MultiValuedValue,
     SubclassValue,
     TypedValue,
     Value,
     stringify_object,
     unify_bounds_maps,
 )
+
+
+def _union_spelling(value: Value) -> tuple[tuple[Value, ...], ...]:
+    """The members of every union inside a value, in the order they are written.
+
+    Unions compare equal regardless of the order of their members.
+
+    """
+    return tuple(
+        tuple(subval.vals)
+        for subval in value.walk_values()
+        if isinstance(subval, MultiValuedValue)
+    )
 
 
 def get_mro(typ: Union[type, super]) -> Sequence[type]:
@@ -58,7 +72,7 @@ class TypeObject:
     is_thrift_enum: bool = field(init=False)
     is_universally_assignable: bool = field(init=False)
     artificial_bases: set[type] = field(default_factory=set, init=False)
-    _protocol_positive_cache: dict[tuple[Value, Value], BoundsMap] = field(
+    _protocol_positive_cache: dict[tuple[object, ...], BoundsMap] = field(
         default_factory=dict, repr=False
     )
 
@@ -145,7 +159,14 @@ class TypeObject:
                 )
             # The protocol value is part of the key: a generic protocol shares one
             # TypeObject among all its parameterizations.
-            cache_key = (self_val, other_val)
+            # So is the order in which unions are spelled: equal values may list
+            # their members in different orders, and the bounds map keeps that order.
+            cache_key = (
+                self_val,
+                other_val,
+                _union_spelling(self_val),
+                _union_spelling(other_val),
+            )
             bounds_map = self._protocol_positive_cache.get(cache_key)
             if bounds_map is not None:
                 return bounds_map
